@@ -10,22 +10,22 @@ mod proofs {
     /// C15 ("in the requested order (duplicates allowed)"): `sorted` must mean STRICTLY increasing -- a list with an
     /// adjacent duplicate or a descent is not sorted -- and `contiguous` means consecutive addresses of one fragment.
     #[kani::proof]
-    #[kani::unwind(7)]
+    #[kani::unwind(10)]
     fn classification_of_key_lists() {
-        let a: [u64; 5] = kani::any();
-        let n: usize = kani::any(); kani::assume(n <= 5);
+        let a: [u64; 8] = kani::any();
+        let n: usize = kani::any(); kani::assume(n <= 8);
         // the tombstone address u64::MAX is never a key (last_offset + 1 would overflow)
-        for i in 0..5 { kani::assume(a[i] < u64::MAX); }
+        for i in 0..8 { kani::assume(a[i] < u64::MAX); }
         let s = check_row_addrs(&a[..n]);
         let mut strictly_increasing = true; let mut consecutive_same_fragment = true;
-        for i in 1..5 { if i < n {
+        for i in 1..8 { if i < n {
             if !(a[i - 1] < a[i]) { strictly_increasing = false; }
             if !(a[i] == a[i - 1] + 1 && (a[i] >> 32) == (a[0] >> 32)) { consecutive_same_fragment = false; }
         } }
         assert!(s.sorted == strictly_increasing, "`sorted` is not 'strictly increasing' (duplicates / descents must take the slow path)");
         assert!(s.contiguous == consecutive_same_fragment, "`contiguous` is not 'consecutive addresses of one fragment'");
-        kani::cover!(n == 5 && s.sorted && !s.contiguous);
-        kani::cover!(n == 5 && s.contiguous);
+        kani::cover!(n == 8 && s.sorted && !s.contiguous);
+        kani::cover!(n == 8 && s.contiguous);
         kani::cover!(n >= 2 && !s.sorted);
     }
 }
